@@ -112,6 +112,27 @@ class Progress:
                 if len(a) == 1 and SX.is_node(a[0]) and a[0]['k'] == 'member' and a[0]['name'] == 'type' and self._is_current_token(a[0]['base']) \
                         and self._unmoved_between(d, node) and self._table_excludes_eof(init):
                     return True
+        if pol and SX.is_node(c) and c['k'] in ('call', 'mcall') and self.eof and len(SX.real_args(c)) == 1:
+            # a token-kind predicate `isPrimitiveTypeToken(peek().type)`: true ⇒ not at end, when the predicate — evaluated from
+            # its own syntax tree — is false for the end-of-input kind
+            a0 = SX.strip(SX.real_args(c)[0])
+            if SX.is_node(a0) and a0.get('k') == 'member' and a0.get('name') == 'type' and self._is_current_token(a0.get('base')) \
+                    and (node is None or True):
+                ts = [t for t in self.p.resolve(c) if t.body]
+                if len(ts) == 1 and len(ts[0].params) == 1 and (ts[0].ret or '') == 'bool':
+                    key = ('eofpred', ts[0].key)
+                    if key not in self._ub:
+                        ok_ = False
+                        try:
+                            from .kabs import Interp, Unsupported, OutOfRange
+                            ety = (ts[0].params[0].get('type') or '').replace('const ', '').strip()
+                            rv = Interp(self.p, {}, max_steps=3000).call_fn(ts[0], [ety + '::' + self.eof])
+                            ok_ = rv is False
+                        except Exception:
+                            ok_ = False
+                        self._ub[key] = ok_
+                    if self._ub[key]:
+                        return True
         if SX.is_node(c) and c['k'] == 'mcall':
             g = self.callee_of(c)
             if g is not None:
@@ -266,6 +287,26 @@ class Progress:
         C, N, X, N2 = st
         k = n.kind
         e = n.e
+        if k == 'case' and self.eof and n.label not in (None, 'default') and n.pred and all(p.kind in ('switch', 'case') for p in n.pred):
+            # `switch (peek().type) { case TokenType::K: …` with K other than end-of-input: not at end (only when the label is
+            # entered from the switch itself, not by falling through from statements of an earlier case)
+            sw = [p for p in n.pred if p.kind == 'switch']
+            cur = n
+            hops = 0
+            while not sw and hops < 40:
+                nxt = [p for p in cur.pred if p.kind == 'case']
+                if not nxt:
+                    break
+                cur = nxt[0]
+                sw = [p for p in cur.pred if p.kind == 'switch']
+                hops += 1
+            if sw and SX.is_node(sw[0].e) and SX.is_node(sw[0].e.get('c')):
+                c = SX.strip(sw[0].e['c'])
+                self._node = sw[0]
+                if SX.is_node(c) and c.get('k') == 'member' and c.get('name') == 'type' and self._is_current_token(c.get('base')) \
+                        and not str(n.label).endswith(self.eof) and SX.is_node(n.e.get('v')) and SX.strip(n.e['v']).get('kind') == 'enum':
+                    return (C, 1, X, N2)
+            return (C, N, X, N2)
         if k == 'edge':
             cond = e
             if SX.is_node(cond) and cond.get('k') == 'mcall':
